@@ -1,3 +1,4 @@
+import WS.Lemmas.MixedReads
 import WS.Lemmas.Sequences
 import WS.Lemmas.JoinLaw
 import WS.Lemmas.ReaderZ
@@ -152,6 +153,42 @@ theorem read_messages (c : Conn) (hc : ReaderIdle c) (msgs : List (Nat × List P
       ReaderIdle c' ∧ c'.r.buf.pending = rest ∧
       c'.r.hlog = c.r.hlog ++ (msgs.map (fun m => ctlEvents m.2)).flatten := by
   first | exact WS.Sequences.read_messages .. | (apply WS.Sequences.read_messages <;> assumption)
+
+open WS.ReaderDecodes WS.MixedReads
+
+/-- "reads of any sizes", with the size changing from one Read to the next: reading a message first
+    with requests of the sizes `ks` (any positive sizes, in order: `zFills` is the plain loop "Read with
+    these sizes until the list ends or a Read returns an error") and then to the end with requests of
+    size `k` delivers, concatenated, exactly the payload; end-of-message is signalled once, by
+    whichever phase reaches it; the reader is idle again, the following bytes untouched, the handlers
+    saw the interleaved control frames -/
+theorem read_message_mixed (c : Conn) (hc : ReaderIdle c) (t : Nat) (ht : t = 1 ∨ t = 2) (fs : List PFrame)
+    (hs : MsgShape t fs) (rest : Bytes)
+    (hp : c.r.buf.pending = encAll c.r.isServer fs ++ rest)
+    (hend : c.r.buf.t.together = false ∨ rest ≠ [])
+    (hsz : (dataPayload fs).length < 2 ^ 62) (hlim : c.r.limit ≤ 0)
+    (ks : List Nat) (hks : ∀ k ∈ ks, 0 < k) (k : Nat) (hk : 0 < k) :
+    ∃ c1 rid, nextReader c = (.msg t rid false, c1) ∧
+      ∃ pre st c2, zFills ks c1 rid [] = ((pre, st), c2) ∧
+        ((st = some .eof ∧ pre = dataPayload fs ∧ ReaderIdle c2 ∧ c2.r.buf.pending = rest ∧
+            c2.r.hlog = c.r.hlog ++ ctlEvents fs) ∨
+         (st = none ∧ ∃ suf c3, readAll c2 rid k = ((suf, none), c3) ∧ pre ++ suf = dataPayload fs ∧
+            ReaderIdle c3 ∧ c3.r.buf.pending = rest ∧ c3.r.hlog = c.r.hlog ++ ctlEvents fs)) := by
+  first | exact WS.MixedReads.read_message_mixed .. | (apply WS.MixedReads.read_message_mixed <;> assumption)
+
+/-- ReadMessage / io.ReadAll: whatever capacities the Go allocator picks for the growing buffer (any
+    strictly increasing sequence — an environment answer measured by the harness; after the list the
+    model grows by 8192), the message is returned complete and byte-identical -/
+theorem read_message_any_caps (c : Conn) (hc : ReaderIdle c) (t : Nat) (ht : t = 1 ∨ t = 2) (fs : List PFrame)
+    (hs : MsgShape t fs) (rest : Bytes)
+    (hp : c.r.buf.pending = encAll c.r.isServer fs ++ rest)
+    (hend : c.r.buf.t.together = false ∨ rest ≠ [])
+    (hsz : (dataPayload fs).length < 2 ^ 62) (hlim : c.r.limit ≤ 0)
+    (caps : List Nat) (hcaps : Growing 0 caps) :
+    ∃ c1 rid, nextReader c = (.msg t rid false, c1) ∧
+      ∃ c2, readAllGrow c1 rid caps = ((dataPayload fs, none), c2) ∧ ReaderIdle c2 ∧
+        c2.r.buf.pending = rest ∧ c2.r.hlog = c.r.hlog ++ ctlEvents fs := by
+  first | exact WS.MixedReads.read_message_any_caps .. | (apply WS.MixedReads.read_message_any_caps <;> assumption)
 
 /-! ### non-vacuity -/
 section NonVacuity
